@@ -259,6 +259,13 @@ func clampActive(c *Case3) bool {
 // returns (failure, finding): finding = the F-VNORMAL-CLAMP situation (clamp active, dimension >= 2)
 func oracleVNormal(c *Case3) (string, string) {
 	if c.Err {
+		// an error is a failure to return the maximiser when the weighted moment matrix is comfortably positive definite
+		// (e.g. log-weights all above 709 / below -745 exponentiated without the gamma_max rescaling: NaN moments)
+		xs := fmat2(c.Xs)
+		w := linW(c, len(xs))
+		if s, ok := momentMatrixV(xs, w, c.D); ok && c.Bound.f() <= 1e6 && wellConditionedV(xs, w, s) {
+			return "estimator reports an error although the weighted moment matrix is positive definite and well conditioned", ""
+		}
 		return "", ""
 	}
 	xs, mu, si := fmat2(c.Xs), ffs(c.Mu), fmat2(c.Si)
@@ -358,6 +365,47 @@ func oracleVNormal(c *Case3) (string, string) {
 		}
 	}
 	return fail, finding
+}
+
+// weighted moment matrix around the weighted mean; ok only for finite weights with positive total and variances of moderate
+// magnitude (so that neither the determinant nor the moments can over- / underflow in binary64)
+func momentMatrixV(xs [][]float64, w []float64, d int) ([][]float64, bool) {
+	W := 0.0
+	for _, v := range w {
+		if math.IsNaN(v) || math.IsInf(v, 0) {
+			return nil, false
+		}
+		W += v
+	}
+	if !(W > 0) || d < 1 || d > 4 {
+		return nil, false
+	}
+	mu := make([]float64, d)
+	for l, x := range xs {
+		if len(x) != d {
+			return nil, false
+		}
+		for i := range mu {
+			mu[i] += w[l] * x[i] / W
+		}
+	}
+	s := make([][]float64, d)
+	for i := range s {
+		s[i] = make([]float64, d)
+	}
+	for l, x := range xs {
+		for i := 0; i < d; i++ {
+			for j := 0; j < d; j++ {
+				s[i][j] += w[l] * (x[i] - mu[i]) * (x[j] - mu[j]) / W
+			}
+		}
+	}
+	for i := 0; i < d; i++ {
+		if !(s[i][i] > 1e-6 && s[i][i] < 1e6) || !(math.Abs(mu[i]) < 1e6) {
+			return nil, false
+		}
+	}
+	return s, true
 }
 
 func wellConditionedV(xs [][]float64, w []float64, si [][]float64) bool {
